@@ -176,14 +176,14 @@ void h_timeLimit(void) { struct Search* s; int a, b, c; S64 t; havoc_globals(); 
 
 _FL = CHECKS + ['--conversion-check'] + FLOAT_CHECKS
 GROUPS = [
-    Group('computeTimeLimit_noponder', 'h_ctl_noponder', enforce='EngineControl_computeTimeLimit', checks=_FL, min_props=20, timeout=900),
+    Group('computeTimeLimit_noponder', 'h_ctl_noponder', enforce='EngineControl_computeTimeLimit', checks=_FL, min_props=20, timeout=3600),
     Group('computeTimeLimit_ponder_default', 'h_ctl_ponder_default', enforce='EngineControl_computeTimeLimit', checks=_FL, min_props=20, timeout=1500),
     Group('computeTimeLimit_ponder_all', 'h_ctl_ponder_all', enforce='EngineControl_computeTimeLimit', checks=_FL, min_props=20, timeout=3000, tier='thorough'),
     Group('ponderHit', 'h_ponderHit', enforce='EngineControl_ponderHit', replace=('ghost_sc_timeLimit',), min_props=5),
     Group('oneMove', 'h_oneMove', enforce='EngineControl_startThread_oneMove', min_props=5),
     Group('Search_timeLimit', 'h_timeLimit', enforce='Search_timeLimit', min_props=4),
-    Group('shouldStop_time', 'h_shouldStop', enforce='Search_shouldStop_time', checks=_FL, min_props=4, timeout=900),
-    Group('iterDeep_timeTest', 'h_iterTime', enforce='Search_iterDeep_timeTest', checks=_FL, min_props=4, timeout=900),
+    Group('shouldStop_time', 'h_shouldStop', enforce='Search_shouldStop_time', checks=_FL, min_props=4, timeout=3600),
+    Group('iterDeep_timeTest', 'h_iterTime', enforce='Search_iterDeep_timeTest', checks=_FL, min_props=4, timeout=3600),
 ]
 PROPERTIES = {'C06': [g.name for g in GROUPS]}
 ASSUMPTIONS = {'C06': [
